@@ -15,7 +15,7 @@ ANCHORS = [("qartod.py", "location_test"), ("qartod.py", "gross_range_test"), ("
            ("axds.py", "valid_range_test")]
 RULE = ("every test that handles missing data x all 2^n placements of missing values in the data for n<=6 (9 thorough), "
         "jointly in data and depth (4^n) for n<=4 (6), all 4^n lon/lat placements for n<=4 (6) x missing markers "
-        "{NaN in ndarray, None in list, masked element over NaN, masked element over a finite GOOD-looking value, explicit mask plus unmasked NaN} x a "
+        "{NaN in ndarray, None in list, masked element over NaN, masked element over a finite GOOD-looking value, explicit mask plus unmasked NaN, mask over the real reading right after the unmasked call} x a "
         "parameter grid per test that makes GOOD, SUSPECT and FAIL reachable at the present neighbours (for "
         "climatology every member shape: absolute / month / week / dayofyear / quarter x +-zspan x +-fspan x 1-2 "
         "members).  Monitor, per index: missing => flag in {MISSING} (or UNKNOWN where the test is undefined anyway); "
@@ -26,7 +26,7 @@ ASSUMPTIONS = ["needs(i): spike {i-1,i+1}; rate of change / speed / hop {i-1}; o
                "for position tests 'missing' means both coordinates missing"]
 EXHAUSTIVE_ALL = False
 
-MARKERS = ["nan", "none", "masked-nan", "masked-finite", "masked-mixed"]
+MARKERS = ["nan", "none", "masked-nan", "masked-finite", "masked-mixed", "masked-real"]
 G, U, S, F, M = 1, 2, 3, 4, 9
 
 
@@ -44,6 +44,10 @@ def carrier(vals, miss, marker, poison=None):
         return np.array([np.nan if m else v for v, m in zip(vals, miss)], dtype=float)
     if marker == "none":
         return [None if m else v for v, m in zip(vals, miss)]
+    if marker == "masked-real":
+        # an upstream check masked some readings and left their values in the buffer; the SAME buffer was run unmasked
+        # just before (judge() issues that call first), so only the mask tells the two calls apart
+        return np.ma.MaskedArray(np.array(vals, dtype=float), mask=np.array(miss, dtype=bool) if len(miss) else False)
     if marker == "masked-mixed":
         # a reader masked the fill values, the instrument also wrote NaN: every other missing element is an unmasked NaN
         odd = [m and (sum(miss[:k]) % 2 == 1) for k, m in enumerate(miss)]
@@ -85,6 +89,10 @@ CLIM["abs+month"] = [CLIM["abs+z+f"][0], CLIM["quarter"][0]]
 
 
 def judge(ctx, mode, fname, kw, miss, needs, undefined, case) -> None:
+    if case.get("marker") == "masked-real":
+        raw = {k: (np.array(np.ma.getdata(v)) if isinstance(v, np.ma.MaskedArray) else v) for k, v in kw.items()}
+        client.invoke(fname, raw, check_purity=False)  # history: the raw buffers first
+        ctx.count("c02.raw_then_masked_histories")
     o = client.invoke(fname, kw)
     ctx.count("c02.calls")
     n = len(miss)
@@ -215,6 +223,14 @@ def run(ctx) -> None:
                       {"lon": carrier(lon, ma, marker, 10.0), "lat": carrier(lat, mb, marker, 50.0),
                        "bbox": [9, 49, 13, 51], "range_max": 5000.0}, both,
                       lambda k: ma[k] or mb[k], lambda k: False, {**case, "lon": lon, "lat": lat})
+                if n and sum(pl) % 3 == 1:
+                    # a longitude written in the 0..360 convention is simply a number outside a -180..180 box; the fixes
+                    # with nothing recorded are still the MISSING ones
+                    lonx = [v + (190.0 if k % 2 == 0 else 0.0) for k, v in enumerate(lon)]
+                    judge(ctx, "location|lon-0-360", "qartod.location_test",
+                          {"lon": carrier(lonx, ma, marker, 10.0), "lat": carrier(lat, mb, marker, 50.0),
+                           **([{"bbox": [9, 49, 13, 51]}, {}][sum(pl) % 2])}, both,
+                          lambda k: ma[k] or mb[k], lambda k: False, {**case, "lon": lonx, "lat": lat})
                 judge(ctx, "speed", "argo.speed_test",
                       {"lon": carrier(lon, ma, marker, 10.0), "lat": carrier(lat, mb, marker, 50.0),
                        # (every third placement: pairs of fixes share a time stamp -- nothing is missing there)
